@@ -3259,6 +3259,71 @@ func c08WrittenModuleSearched(c *Ctx) {
 			if denyList == "" || !globals[denyList] {
 				missing = append(missing, "it does not consult the deny-list the compiler is given")
 			}
+			// the conditions under which a denied call is reported (second mutation survey: `!own[called]` turned into
+			// `!!own[called]`): where the error is built, membership in the deny-list is required (true edge of the comma-ok
+			// lookup) and membership in any other map (the names the module defines itself) is at most an exemption (false
+			// edge), never a requirement.  Only recognised guards are judged; a searcher without such guards is left alone.
+			reportSites := 0
+			for f := range visited {
+				for _, b := range f.Blocks {
+					for _, ins := range b.Instrs {
+						ci, ok := ins.(ssa.CallInstruction)
+						if !ok {
+							continue
+						}
+						if n := funcFullName(ssaCalleeObj(ci)); n != opaPath+"/ast.NewError" && n != "errors.New" && n != "fmt.Errorf" {
+							continue
+						}
+						reportSites++
+						denyPol, otherReq := 0, ""
+						for d := b; d != nil && d.Idom() != nil; d = d.Idom() {
+							id := d.Idom()
+							iff, ok := id.Instrs[len(id.Instrs)-1].(*ssa.If)
+							if !ok || len(id.Succs) != 2 || id.Succs[0] == id.Succs[1] || len(d.Preds) != 1 {
+								continue
+							}
+							edge := 0
+							if id.Succs[0] == d {
+								edge = 1
+							} else if id.Succs[1] == d {
+								edge = -1
+							}
+							cond := iff.Cond
+							if ex, ok := cond.(*ssa.Extract); ok && ex.Index == 1 {
+								cond = ex.Tuple
+							}
+							lk, ok := cond.(*ssa.Lookup)
+							if !ok {
+								continue
+							}
+							if _, isMap := lk.X.Type().Underlying().(*types.Map); !isMap {
+								continue
+							}
+							src := lk.X
+							if ld, ok := src.(*ssa.UnOp); ok && ld.Op == token.MUL {
+								src = ld.X
+							}
+							if g, ok := src.(*ssa.Global); ok && g.Name() == denyList {
+								if denyPol == 0 {
+									denyPol = edge
+								}
+							} else if edge > 0 {
+								otherReq = p.Pos(iff.Pos())
+								if otherReq == "" {
+									otherReq = p.Pos(lk.Pos())
+								}
+							}
+						}
+						if denyPol < 0 {
+							missing = append(missing, "the error at "+p.Pos(ci.Pos())+" is built where the called name is NOT in the deny-list")
+						}
+						if otherReq != "" && denyPol != 0 {
+							missing = append(missing, "the error at "+p.Pos(ci.Pos())+" is built only where another map holds the called name (the names the module defines itself are an exemption, not a requirement): a call of a denied built-in that the module does not redefine passes")
+						}
+					}
+				}
+			}
+			r.Analysed["B9_report_sites"] = reportSites
 			// the search starts from the whole module: some visitor is handed the value ast.ParseModule returned
 			whole := false
 			for g := range visited {
